@@ -96,9 +96,29 @@ def spec_strategy(draw, backend, idx):
         e1, e2, t = expr(), expr(), term()
         ctype = {"double": "double", "float": "float", "int": "double"}[ret]
         sub = lambda x: x.replace("__OBJPT__", (mobj or "") + arrow + "pt()")
-        code.append(f"{ctype} {res} = {sub(e1)};")
-        code.append(f"if ({sub(t)} > 1.5)")
-        code.append(f"  {res} = {sub(e2)};")
+        form = draw(st.sampled_from(["if-next-line", "if-next-line", "if-comment", "if-same-line", "if-else-braces"]))
+        if form == "if-else-braces":
+            # braces and an else on lines of their own ('} else' is not a complete statement either)
+            code.append(f"{ctype} {res} = 0;")
+            code.append(f"if ({sub(t)} > 1.5) {{")
+            code.append(f"  {res} = {sub(e2)};")
+            closing = draw(st.sampled_from(["} else", "} else {", "}"]))
+            code.append(closing)
+            if closing == "}":
+                code.append("else")
+            if closing.endswith("{"):
+                code.append(f"  {res} = {sub(e1)};")
+                code.append("}")
+            else:
+                code.append(f"  {res} = {sub(e1)}" + draw(st.sampled_from([";", ""])))
+        else:
+            code.append(f"{ctype} {res} = {sub(e1)};")
+            if form == "if-same-line":
+                # the whole conditional statement on one line, with or without its semicolon
+                code.append(f"if ({sub(t)} > 1.5) {res} = {sub(e2)}" + draw(st.sampled_from([";", ""])))
+            else:
+                code.append(f"if ({sub(t)} > 1.5)" + (" /* the large ones */" if form == "if-comment" else ""))
+                code.append(f"  {res} = {sub(e2)}" + draw(st.sampled_from([";", ""])))
         meaning.append((res, f"(({e2}) if (({t}) > 1.5) else ({e1}))"))
     else:
         e = expr()
@@ -280,12 +300,16 @@ def find_blocks(src: str, res_names) -> List[tuple]:
             continue
         j = i - 1
         body = []
-        while j >= 0 and lines[j] != "{":
-            if lines[j] == "}":
+        depth = 0  # braces of the supplied code itself (if (..) { .. } else { .. }) are balanced inside the block
+        while j >= 0 and not (lines[j] == "{" and depth == 0):
+            depth += lines[j].count("}") - lines[j].count("{")
+            if depth < 0:
                 body = None
                 break
             body.append(lines[j])
             j -= 1
+        if depth != 0:
+            body = None
         closed = i + 1 < len(lines) and lines[i + 1] == "}"
         var = m.group(1)
         decl = [x for x in lines[: max(j, 0)] if re.match(rf"^.*\b{re.escape(var)};$", x)]
